@@ -68,6 +68,7 @@ func (x *Exec) callValue(fr *Frame, st *State, c *ssa.CallCommon, fv Value, args
 	if fv.Fn == nil {
 		// unknown function value
 		x.oblige(fr, st, "nil", x.src(fr.fn, pos, "call")+"(fn)", pos, Not(Eq(fv.L[0], IntLit(0))))
+		x.logCall(st, "dynamic call "+x.src(fr.fn, pos, "call"), args)
 		return x.unknownCall(fr, st, "dynamic call "+x.src(fr.fn, pos, "call"), c.Signature(), args, false)
 	}
 	return x.callFn(fr, st, fv.Fn.Fn, args, fv.Fn.Binds, pos)
